@@ -1041,6 +1041,7 @@ fn emit_case(em: &mut Emitter, id: String, mut c: Case) {
         node_texts(k, &mut text);
     }
     text.push('#');
+    text.push(if table_in_f26_class(&c.app) { 'K' } else { 'k' });
     let (expect, show, ok, why, nontrivial, known_class) = match &r {
         Ok(answers) => {
             let mut verdict: Result<(), String> = Ok(());
@@ -1128,8 +1129,8 @@ fn main() {
     }
     if args.case.is_none() {
         let mut rng = Rng::new(args.seed);
-        let n = args.n.unwrap_or(if args.thorough() { 2500 } else { 400 });
-        let per = if args.thorough() { 24 } else { 12 };
+        let n = args.n.unwrap_or(if args.thorough() { 4000 } else { 400 });
+        let per = if args.thorough() { 30 } else { 12 };
         for i in 0..n {
             let mut r = rng.fork();
             let app = gen_app(&mut r, if i % 7 == 0 { 4 } else { 3 });
